@@ -652,6 +652,12 @@ def discharge_call(prog, ctx, fk, b, i, t, n, R, roles, reph_fns, sub13, sub15, 
         ok = _find_split(b, s_e, idx)
         if ok:
             return True, "D-find-split: index is the payload of find()/char_indices() or len() of the same string (a char boundary ≤ len)"
+        # the ASCII word split at the loop variable i ∈ [1, len−1] (the two halves are the slices [..i] and [i..])
+        is_word = word_param_pred(fk, b)
+        if is_word(s_e):
+            at = c08.affine(idx, is_word)
+            if at is not None and loop_bounds_ok(b, fk) and nonneg(at) and nonneg(sub_forms({"LEN": 1}, at)) and word_is_ascii(fk, b):
+                return True, "D-ascii-slice: split_at(%s) with 0 ≤ %s ≤ len for i ∈ [1, len−1] on ASCII text" % (c08._fmt(c08.norm(at)), c08._fmt(c08.norm(at)))
         return False, "split index %r is not shown to be a char boundary of %r" % (idx, s_e)
     # str slices of the ASCII word with affine bounds
     if n.endswith("for str>::index") or (n.endswith("::index") and "str" in n):
